@@ -14,6 +14,10 @@ pub enum Step {
     Between(u32),
     /// evaluate state / next_change / the interval stream over [now, now + window) (at most `take` intervals)
     Observe { window: i64, take: u32 },
+    /// call the public mapping `TzLocation::datetime(naive)` directly for this wall-clock time (seconds as if UTC,
+    /// plus a sub-second part): the result must be the later instant when the time is repeated, the instant that
+    /// closes the gap (exactly, no sub-second part) when it does not exist
+    Map { local: i64, nanos: u32 },
     /// like Observe, with the window ending `delta` seconds after (before, if negative) the injected jump
     /// (falls back to a 60 s window when that end is not after `now` or the run has no jump)
     ObserveUntilJump { delta: i64, take: u32 },
